@@ -155,10 +155,14 @@ VERUS_UNITS = {
     },
     'runner': {
         'template': 'runner.rs.tpl',
-        'owners': [(r'syscommand_runner$', ['C03', 'C05', 'C13', 'C18'])],
+        'owners': [(r'syscommand_runner$', ['C03', 'C05', 'C12', 'C13', 'C18']), (r'replay_buffered$', ['C03', 'C05', 'C12', 'C18']), (r'kept_of$', ['C12'])],
         'negctl': [
-            ('(final(world).counter().0 == 0 && final(world).queue().commands@.len() == 0))', '(final(world).counter().0 == 1 && final(world).queue().commands@.len() == 0))', 'syscommand_runner'),
-            ('idx != 0) ==> (final(world).queue().commands@ == w0.queue().commands@.push(', 'idx != 0) ==> (final(world).queue().commands@ == w0.queue().commands@.drop_last().push(', 'syscommand_runner'),
+            ('(w_out.counter().0 == 0 && w_out.queue().commands@.len() == 0))', '(w_out.counter().0 == 1 && w_out.queue().commands@.len() == 0))', 'syscommand_runner'),
+            ('idx != 0) ==> (w_out.queue().commands@ == w0.queue().commands@.push(', 'idx != 0) ==> (w_out.queue().commands@ == w0.queue().commands@.drop_last().push(', 'syscommand_runner'),
+            # the replay closure must hand the buffered entry's OWN cleanup to the runner
+            ('if b.command == command { runner_post(w_a, b.command, b.setup, b.cleanup, w_b) }', 'if b.command == command { runner_post(w_a, b.command, b.setup, b.cleanup, w_b) && w_b == w_a }', 'replay_buffered'),
+            # kept entries keep their order (the retain loop's invariant)
+            ('if s.last().command == command { r } else { r.push(s.last()) }', 'if s.last().command == command { r } else { seq![s.last()] + r }', 'syscommand_runner'),
         ],
     },
     'dispatch': {
@@ -226,11 +230,11 @@ ENVNOTE = 'Kani tier runs the real crate against the assumed Bevy of /verif/env 
 
 PROPS = {
     'C01': dict(category='other', design_ref='DESIGN.md 5/C01',
-        text='Registration tables as abstract maps key -> list: Verus proves on the verbatim text, for tables and lists of ANY size, that each of the 7 ReactCache::register_* functions appends exactly one handle to exactly the list named by (kind, key) and leaves every other list of every table unchanged, and that schedule_resource_mutation_reaction / schedule_broadcast_reaction queue exactly one command per entry of the trigger type\'s list, in order, with the right reactor id (and nothing for an empty list). schedule_insertion_reaction / schedule_mutation_reaction / schedule_entity_reaction_impl are likewise proved for per-entity and type-wide lists of any length (Verus, verbatim, against an assumed sequence stand-in for Vec and the assumed contract of EntityReactors::iter_rtype). Kani discharges on the real code, for bounded shapes, the functions outside Verus\' subset: EntityReactors::{insert,remove,count,iter_rtype,iter_reactors} (lists L<=3, all contents), ReactCache::revoke_* (neighbours keep their entries), schedule_entity_event_reaction, and restates schedule_{insertion,mutation}_reaction on the compiled code (entity-scoped + type-wide listeners, wrong-kind / wrong-type entries present and not fired). Lemma L3 (Verus) lifts register/revoke contracts to arbitrary histories on one key. Level other: the schedule_* functions with Query access are bounded stand-ins; that Bevy applies the scheduling command in-line is runner/queue semantics (C02/C09, not applicable).',
-        note=ENVNOTE + '; maps = finite partial maps (hashing not modelled); Vec as an assumed sequence stand-in in units cache_revoke / dispatch; tuple trigger bundles (macro-generated) and the replay closure of syscommand_runner not under contract',
-        explanation='register_* x7 + 2 type-wide schedule fns proved unbounded (Verus, verbatim); entity-scoped dispatch, EntityReactors and revoke_* bounded (Kani); history lemma L3'),
+        text='Registration tables as abstract maps key -> list: Verus proves on the verbatim text, for tables and lists of ANY size, that each of the 7 ReactCache::register_* functions appends exactly one handle to exactly the list named by (kind, key) and leaves every other list of every table unchanged, and that schedule_resource_mutation_reaction / schedule_broadcast_reaction queue exactly one command per entry of the trigger type\'s list, in order, with the right reactor id (and nothing for an empty list). schedule_insertion_reaction / schedule_mutation_reaction / schedule_entity_reaction_impl are likewise proved for per-entity and type-wide lists of any length (Verus, verbatim, against an assumed sequence stand-in for Vec and the assumed contract of EntityReactors::iter_rtype). Kani discharges on the real code, for bounded shapes, the functions outside Verus\' subset: EntityReactors::{insert,remove,count,iter_rtype,iter_reactors} (lists L<=3, all contents), schedule_entity_event_reaction, a restatement of ReactCache::revoke_* on the compiled code (the five revoke_* themselves are proved by Verus for lists of any length: neighbours keep their entries), and restates schedule_{insertion,mutation}_reaction on the compiled code (entity-scoped + type-wide listeners, wrong-kind / wrong-type entries present and not fired). Lemma L3 (Verus) lifts register/revoke contracts to arbitrary histories on one key. Level other: the schedule_* functions with Query access are bounded stand-ins; that Bevy applies the scheduling command in-line is runner/queue semantics (C02/C09, not applicable).',
+        note=ENVNOTE + '; maps = finite partial maps (hashing not modelled); Vec as an assumed sequence stand-in in units cache_revoke / dispatch; tuple trigger bundles (macro-generated) not under contract',
+        explanation='register_* x7, revoke_* x5, 4 schedule fns and the 11 trigger types proved unbounded (Verus, verbatim); EntityReactors and entity-event dispatch bounded (Kani); history lemma L3'),
     'C03': dict(category='other', design_ref='DESIGN.md 5/C03',
-        text='Contracts on the four access trackers, every event reader and the setup/cleanup functions of commands.rs: prepare = append, end clears (Verus, unbounded, verbatim); start(r) claims the oldest entry parked for r and leaves the rest in order (Kani, every content of lists of length 0..3 quick / 0..5 thorough); Insertion/Mutation/Removal/DespawnEvent::get return the current reaction\'s source iff the tracker is reacting AND kind AND component type id are the reader\'s, generically in the component type (Verus, verbatim); Broadcast/EntityEvent readers and SystemEvent::take likewise for payload types u32/u16 (Kani, loop-free; a second take in the same run reads nothing); each command\'s apply parks its metadata in exactly the tracker(s) of its kind and hands the runner the (start, end) pair of that kind (Verus, verbatim); start_X/end_X start/stop exactly the trackers of kind X (Verus, verbatim, against the assumed World contract); cleanup_on_abort = setup then cleanup, unconditionally (Verus). Lemma L1 (Verus) lifts the start contract to: for any interleaving of parked events each run of a system receives the oldest metadata parked for it. Not covered: that the runner replays postponed commands in parking order (runner-level histories; known finding F3).',
+        text='Contracts on the four access trackers, every event reader and the setup/cleanup functions of commands.rs: prepare = append, end clears (Verus, unbounded, verbatim); start(r) claims the oldest entry parked for r and leaves the rest in order (Kani, every content of lists of length 0..3 quick / 0..5 thorough); Insertion/Mutation/Removal/DespawnEvent::get return the current reaction\'s source iff the tracker is reacting AND kind AND component type id are the reader\'s, generically in the component type (Verus, verbatim); Broadcast/EntityEvent readers and SystemEvent::take likewise for payload types u32/u16 (Kani, loop-free; a second take in the same run reads nothing); each command\'s apply parks its metadata in exactly the tracker(s) of its kind and hands the runner the (start, end) pair of that kind (Verus, verbatim); start_X/end_X start/stop exactly the trackers of kind X (Verus, verbatim, against the assumed World contract); cleanup_on_abort = setup then cleanup, unconditionally (Verus). Lemma L1 (Verus) lifts the start contract to: for any interleaving of parked events each run of a system receives the oldest metadata parked for it. The runner\'s replay of postponed commands is under contract too (Verus, closure body verbatim, lifted by extraction rule 14): an entry of the buffer that names the command that just finished is handed back to the runner with ITS OWN (command, setup, cleanup) triple - the pair that starts/ends the trackers of its kind - entries are visited front to back, the others are kept in order. Not covered: histories over nested trees, where metadata parked by different kinds of command interleave (known finding F3).',
         note=ENVNOTE + '; the cross-kind metadata mix-up under nested replay (F3) is a runner-level history that no function contract decides: listed in known_findings.json',
         explanation='tracker prepare/end/getters, entity-reaction and despawn readers, start_/end_* and cleanup_on_abort proved by Verus on verbatim text; tracker start and event readers complete@shape by Kani; per-system FIFO by lemma L1; runner not covered'),
     'C04': dict(category='other', design_ref='DESIGN.md 5/C04',
@@ -238,7 +242,7 @@ PROPS = {
         note=ENVNOTE + '; `unsafe` in run_initialized_system trusted; stub System = assumed contract of bevy System (run = run_unsafe + apply_deferred; exclusive run = body + flush)',
         explanation='cleanup placement complete per (exclusive?, #deferred) shape by Kani on the real function; end_* and readers proved by Verus; once() closure and tree positions not covered'),
     'C05': dict(category='other', design_ref='DESIGN.md 5/C05',
-        text='Verus proves on verbatim text: DataEntityCounter arithmetic (released at exactly the n-th of n decrements, lemma L2); try_cleanup_data_entity despawns the payload entity iff the decrement reaches 0 and is a no-op for entities that are gone or carry no counter; end_{entity_event,broadcast_event} perform exactly one such cleanup on the current event\'s data entity, end_system_event despawns its payload entity; schedule_broadcast_reaction spawns ONE payload entity whose counter equals the number of queued readers (any list length) and spawns nothing for zero listeners; cleanup_on_abort runs setup then cleanup for a skipped run; on every path of syscommand_runner on which the target cannot run now (entity gone, storage missing, callback taken at the root) exactly one cleanup_on_abort happens after the entry cleanup and nothing else, and a command whose callback is taken below the root is postponed without any cleanup (Verus, the runner verbatim except for the replay closure, which is replaced by an uninterpreted effect and NOT verified). Kani: schedule_entity_event_reaction counter = number of queued readers (scoped + type-wide) for bounded shapes; try_cleanup_data_entity on the stub World. Not covered: release at the latest when the tree ends / root discard (runner).',
+        text='Verus proves on verbatim text: DataEntityCounter arithmetic (released at exactly the n-th of n decrements, lemma L2); try_cleanup_data_entity despawns the payload entity iff the decrement reaches 0 and is a no-op for entities that are gone or carry no counter; end_{entity_event,broadcast_event} perform exactly one such cleanup on the current event\'s data entity, end_system_event despawns its payload entity; schedule_broadcast_reaction spawns ONE payload entity whose counter equals the number of queued readers (any list length) and spawns nothing for zero listeners; cleanup_on_abort runs setup then cleanup for a skipped run; on every path of syscommand_runner on which the target cannot run now (entity gone, storage missing, callback taken at the root) exactly one cleanup_on_abort happens after the entry cleanup and nothing else, and a command whose callback is taken below the root is postponed without any cleanup (Verus, the runner verbatim); the replay closure of the runner (body verbatim, lifted to a named fn by extraction rule 14) hands every postponed entry that names the finished command back to the runner with the entry\'s OWN cleanup - so its payload is released by its own end_X or, if the target died meanwhile, by clause A - removes it from the buffer, and keeps every other entry. Kani: schedule_entity_event_reaction counter = number of queued readers (scoped + type-wide) for bounded shapes; try_cleanup_data_entity on the stub World. Not covered: release at the latest when the tree ends / root discard (runner).',
         note=ENVNOTE,
         explanation='counter, cleanup, broadcast scheduling proved by Verus (unbounded); entity-event scheduling bounded (Kani); runner paths not covered'),
     'C06': dict(category='other', design_ref='DESIGN.md 5/C06',
@@ -258,9 +262,9 @@ PROPS = {
         note=ENVNOTE + '; Query::verif_single stands for a query over one entity',
         explanation='add/remove command contracts proved (Verus, generic); EntityLocal exposure and cleanup_reactor_data bounded/complete@shape (Kani); runner not covered'),
     'C12': dict(category='other', design_ref='DESIGN.md 5/C12',
-        text='Verus proves on the verbatim text of command_queue.rs (all lengths) that the postponed-command buffer is FIFO (push appends, remove hands over everything in order, append concatenates, pop_front = head) and, with lemma L1 (unbounded, any interleaving), that parked event metadata is a per-system FIFO given the contract of *AccessTracker::start; that contract (claims the OLDEST entry of the system, the other entries keep their ORDER) is discharged by Kani on the real start() of all four trackers for every content of parked lists of length 0..3 (quick) / 0..5 (thorough). Level other, not proof: start() is complete per list length only, and the runner replaying its buffer front-to-back is not under contract.',
-        note=ENVNOTE + '; Vec/VecDeque specs of vstd; core::mem::replace assume_specification; syscommand_runner (replay order of the buffer) not covered',
-        explanation='queue FIFO proved (Verus, unbounded); tracker prepare/end proved (Verus); tracker start complete per length L<=3/5 (Kani); lemma L1 lifts the start contract to per-system FIFO for unbounded histories; runner replay order not covered'),
+        text='Verus proves on the verbatim text of command_queue.rs (all lengths) that the postponed-command buffer is FIFO (push appends, remove hands over everything in order, append concatenates, pop_front = head) and, with lemma L1 (unbounded, any interleaving), that parked event metadata is a per-system FIFO given the contract of *AccessTracker::start; that contract (claims the OLDEST entry of the system, the other entries keep their ORDER) is discharged by Kani on the real start() of all four trackers for every content of parked lists of length 0..3 (quick) / 0..5 (thorough). The runner\'s replay (Verus; closure body verbatim, lifted by extraction rule 14; `VecDeque::retain` read as the loop std documents): the postponed entries that name the finished command are re-run front to back, each exactly once, with their own triple, and the entries that stay keep their relative order (spec kept_of); a command postponed by a nested run is appended at the END of the buffer (clause B). Level other, not proof: start() is complete per list length only; the whole-tree order (C09) is not claimed.',
+        note=ENVNOTE + '; Vec/VecDeque specs of vstd; core::mem::replace assume_specification; std retain semantics assumed (visit order, kept iff true)',
+        explanation='queue FIFO proved (Verus, unbounded); tracker prepare/end proved (Verus); tracker start complete per length L<=3/5 (Kani); lemma L1 lifts the start contract to per-system FIFO for unbounded histories; runner replay step/order proved at function level (Verus)'),
     'C13': dict(category='other', design_ref='DESIGN.md 5/C13',
         text='Verus proves on verbatim text that SystemCommandStorage::take hands out exactly the stored callback and leaves None (so a second take while it is out yields None), and insert stores exactly its argument. Kani discharges on the real RawCallbackSystem / CallbackSystem::run_with_cleanup, with a stub System carrying its own run and initialize counters, that over 2-3 consecutive runs `initialize` happens exactly once, every run is executed by the SAME instance (its private counter continues) and the system is stored back as Initialized after every run, for exclusive and non-exclusive systems. Not covered: that the runner puts the callback it took back onto the same entity on every path.',
         note=ENVNOTE + '; stub System = assumed contract of bevy System; Box<dyn FnMut> callbacks are opaque values in the Verus unit',
@@ -270,7 +274,7 @@ PROPS = {
         note=ENVNOTE + '; component/resource instantiated at a u32 newtype',
         explanation='accessor clauses complete@shape (Kani, loop-free, full value domain); dispatch of the trigger bounded (Kani)'),
     'C18': dict(category='other', design_ref='DESIGN.md 5/C18',
-        text='Function-level robustness contracts: Verus (verbatim, unbounded): revoke_reactor skips - does not abort on - token elements whose entity is gone and still processes all later elements; try_cleanup_data_entity is a no-op on a dead entity; cleanup_on_abort runs setup+cleanup whether or not the target exists; syscommand_runner takes the abort path - one cleanup_on_abort, no system run - exactly when the target entity is gone, has no storage, or its callback is out at the root (runner verbatim except for the replay closure). Kani (every reachable panic is a failed obligation): try_cleanup_data_entity on dead / counter-less entities, schedule_entity_event_reaction for a target without reactor list, tracker start without entry, revoke_* with absent key/id. Not covered: targets dying while commands for them are postponed (runner).',
+        text='Function-level robustness contracts: Verus (verbatim, unbounded): revoke_reactor skips - does not abort on - token elements whose entity is gone and still processes all later elements; try_cleanup_data_entity is a no-op on a dead entity; cleanup_on_abort runs setup+cleanup whether or not the target exists; syscommand_runner takes the abort path - one cleanup_on_abort, no system run - exactly when the target entity is gone, has no storage, or its callback is out at the root; a postponed command is handed back to the runner whatever happened to its target in between (replay closure verbatim, lifted by extraction rule 14), so a target that died meanwhile reaches that abort path instead of being dropped silently. Kani (every reachable panic is a failed obligation): try_cleanup_data_entity on dead / counter-less entities, schedule_entity_event_reaction for a target without reactor list, tracker start without entry, revoke_* with absent key/id. Not covered: whole-tree histories (C02).',
         note=ENVNOTE,
         explanation='dead-target paths of revoke walk, payload cleanup and abort proved by Verus; no-panic/no-effect harnesses by Kani; runner not covered'),
 }
